@@ -35,6 +35,10 @@ Proof. exact concerned_is_below. Qed.
 Theorem C13_closer_look_keeps_suppressions : forall es ps id s code, wf_ents es -> id < length es ->
   allowed_by (all_allows (S (length es)) es id) code = true -> allowed_by (all_allows (S (length es)) es (descend (S (length es)) es ps id s)) code = true.
 Proof. exact closer_look_keeps_suppressions. Qed.
+(* ... the element found is innermost: none of its members contains the lint ... *)
+Theorem C13_element_concerned_is_innermost : forall es ps scope s, wf_ents es -> scope < length es ->
+  find (is_child_at es ps (concerned es ps scope s) s) (seq 0 (length es)) = None.
+Proof. exact concerned_is_innermost. Qed.
 (* ... and it is what makes 'the element it concerns' of the property the parameter, not its namesake among the return members *)
 Theorem C13_twin_parameter :
   let es := [{| ent_allows := []; ent_parent := None |}; {| ent_allows := []; ent_parent := Some 0 |};
